@@ -194,8 +194,11 @@ func filterOpsByVersionTime(ops []*operation.AnchoredOperation, timeStr string) 
 		return nil, fmt.Errorf("failed to parse version time[%s]: %w", timeStr, err)
 	}
 
+	// a version time before the Unix epoch precedes every operation (a negative value must not wrap around)
+	versionTime := vt.Unix()
+
 	for _, op := range ops {
-		if op.TransactionTime <= uint64(vt.Unix()) {
+		if versionTime >= 0 && op.TransactionTime <= uint64(versionTime) {
 			filteredOps = append(filteredOps, op)
 		}
 	}
